@@ -480,3 +480,211 @@ pub fn strip_braces(e: &mut EnumSpec) {
         }
     }
 }
+
+#[derive(Clone, Debug, Default)]
+pub struct IterCfg {
+    pub derives: Vec<String>,
+    pub max_variants: usize,
+    /// force exactly this disabled mask (bit i = variant i disabled) over n variants
+    pub mask: Option<(usize, u32)>,
+    /// exactly this many enabled variants (C05)
+    pub n_enabled: Option<usize>,
+    pub fieldless: bool,
+    pub naming: bool,
+    pub discriminants: bool,
+}
+
+/// Iter-family enum (C04 C05 C08)
+pub fn gen_iter(rg: &mut Rg, cfg: &IterCfg) -> EnumSpec {
+    let mut e = EnumSpec::new("En");
+    e.derives = cfg.derives.clone();
+    if !cfg.fieldless {
+        e.type_param = rg.chance(1, 4);
+        e.const_param = rg.chance(1, 6);
+        e.where_clause = e.type_param && rg.chance(1, 2);
+    }
+    let mut eattrs = Vec::new();
+    if cfg.naming {
+        if let Some(s) = pick_style(rg) {
+            eattrs.push(EAttr::SerializeAll(s));
+        }
+        if rg.chance(1, 3) {
+            eattrs.push(EAttr::Prefix(rg.pick(PREFIXES).to_string()));
+        }
+    }
+    e.groups = layout(rg, eattrs, false);
+    let (n, mask) = match (cfg.mask, cfg.n_enabled) {
+        (Some((n, m)), _) => (n, m),
+        (None, Some(k)) => {
+            // k enabled variants with 0..3 disabled ones interleaved
+            let extra = rg.weighted(&[(2, 0usize), (2, 1), (1, 2), (1, 3)]);
+            let n = k + extra;
+            let mut pos: Vec<usize> = (0..n).collect();
+            rg.shuffle(&mut pos);
+            let mut m = 0u32;
+            for p in pos.iter().take(extra) {
+                m |= 1 << p;
+            }
+            (n, m)
+        }
+        (None, None) => {
+            let n = rg.range(0, cfg.max_variants);
+            let mut m = 0u32;
+            for i in 0..n {
+                if rg.chance(1, 4) {
+                    m |= 1 << i;
+                }
+            }
+            (n, m)
+        }
+    };
+    let mut idents: Vec<&str> = IDENTS.to_vec();
+    rg.shuffle(&mut idents);
+    let mut stems: Vec<&str> = STEMS.to_vec();
+    rg.shuffle(&mut stems);
+    let mut si = 0;
+    let mut next_disc: i128 = 0;
+    for vi in 0..n {
+        let mut v = VariantSpec::unit(idents[vi % idents.len()]);
+        if vi >= idents.len() {
+            v.ident = format!("{}N{}", v.ident, vi);
+        }
+        let kind = if cfg.fieldless { Kind::Unit } else { rg.weighted(&[(4, Kind::Unit), (3, Kind::Tuple), (3, Kind::Named)]) };
+        v.kind = kind;
+        let nf = if kind == Kind::Unit { 0 } else { rg.weighted(&[(1, 0usize), (4, 1), (3, 2), (2, 3)]) };
+        v.fields = gen_fields(rg, kind, nf, DEFAULTABLE, &e);
+        let mut attrs = Vec::new();
+        if (mask >> vi) & 1 == 1 {
+            attrs.push(VAttr::Disabled);
+        }
+        if cfg.naming {
+            match rg.weighted(&[(4, 0u8), (2, 1), (2, 2)]) {
+                1 => {
+                    attrs.push(VAttr::ToString(stems[si % stems.len()].to_string()));
+                    si += 1;
+                }
+                2 => {
+                    let a = stems[si % stems.len()].to_string();
+                    let b = format!("{}{}", stems[(si + 1) % stems.len()], "_longer_suffix_x");
+                    si += 2;
+                    let mut l = vec![a, b];
+                    rg.shuffle(&mut l);
+                    for x in l {
+                        attrs.push(VAttr::Serialize(x));
+                    }
+                }
+                _ => {}
+            }
+        }
+        if cfg.discriminants && rg.chance(1, 3) {
+            next_disc += rg.range(0, 5) as i128;
+            v.disc = Some(Disc { text: format!("{}", next_disc), value: next_disc });
+        }
+        next_disc += 1;
+        v.groups = layout(rg, attrs, false);
+        e.variants.push(v);
+    }
+    use_generics_disabled(&mut e);
+    repair_spellings(&mut e);
+    e
+}
+
+/// like use_generics, but the carrier variant is disabled-neutral: appended enabled variant
+fn use_generics_disabled(e: &mut EnumSpec) {
+    use_generics(e);
+}
+
+pub const REPRS: [Option<&str>; 11] =
+    [None, Some("u8"), Some("i8"), Some("u16"), Some("i16"), Some("u32"), Some("i32"), Some("u64"), Some("i64"), Some("usize"), Some("isize")];
+
+/// Repr-family enum (C06): `repr` fixed by the caller.
+pub fn gen_repr(rg: &mut Rg, repr: Option<&str>, derives: &[String]) -> EnumSpec {
+    let (lo, mut hi) = model::repr_range(repr);
+    if repr.is_none() {
+        // rustc types the discriminants of a repr-less enum as isize; from_repr takes usize
+        hi = i64::MAX as i128;
+    }
+    let signed = lo < 0;
+    for _attempt in 0..40 {
+        let mut e = EnumSpec::new("En");
+        e.derives = derives.to_vec();
+        e.repr = repr.map(|s| s.to_string());
+        e.repr_int = repr.map(|s| s.to_string());
+        let mut n = rg.weighted(&[(1, 0usize), (2, 1), (3, 2), (4, 3), (4, 4), (3, 5), (2, 6), (2, 8), (1, 11)]);
+        if repr.is_some() && n == 0 {
+            n = 1; // rustc: "unsupported representation for zero-variant enum"
+        }
+        // data variants: with a primitive repr always possible; without repr only if no explicit discriminant
+        let data = rg.chance(1, 3);
+        let explicit_ok = !(data && repr.is_none());
+        if data {
+            e.type_param = rg.chance(1, 4);
+            e.where_clause = e.type_param && rg.chance(1, 2);
+        }
+        let use_base = explicit_ok && rg.chance(1, 5);
+        if use_base {
+            let b = if signed { rg.range(0, 40) as i128 - 20 } else { rg.range(0, 40) as i128 };
+            e.base_const = Some(b);
+        }
+        let mut idents: Vec<&str> = IDENTS.to_vec();
+        rg.shuffle(&mut idents);
+        let mut prev: Option<i128> = None;
+        for vi in 0..n {
+            let mut v = VariantSpec::unit(idents[vi]);
+            if data {
+                let kind = rg.weighted(&[(3, Kind::Unit), (3, Kind::Tuple), (3, Kind::Named)]);
+                v.kind = kind;
+                let nf = if kind == Kind::Unit { 0 } else { rg.range(0, 3) };
+                v.fields = gen_fields(rg, kind, nf, DEFAULTABLE, &e);
+            }
+            let implicit = prev.map(|p| p + 1).unwrap_or(0);
+            let mut val = implicit;
+            if explicit_ok && rg.chance(2, 5) {
+                let cand: i128 = match rg.below(8) {
+                    0 => implicit + rg.range(1, 9) as i128,                   // gap
+                    1 => implicit - rg.range(2, 30) as i128,                  // descending
+                    2 => rg.range(0, 20) as i128,                             // small literal
+                    3 => hi - rg.range(0, 12) as i128,                        // near MAX
+                    4 => lo + rg.range(0, 12) as i128,                        // near MIN
+                    5 => 1i128 << rg.range(0, 6),                             // shift expression
+                    6 => -(rg.range(1, 100) as i128),                         // negative
+                    _ => implicit,                                            // explicit but equal to the implicit value
+                };
+                val = cand;
+                let text = match rg.below(5) {
+                    0 if val >= 0 => format!("{:#x}", val),
+                    1 if val >= 0 && val.count_ones() == 1 => format!("1 << {}", val.trailing_zeros()),
+                    2 if val >= 3 && val - 3 <= hi => format!("{} + 3", val - 3),
+                    3 if use_base && val - e.base_const.unwrap() >= 0 && val - e.base_const.unwrap() <= 1000 => format!("BASE + {}", val - e.base_const.unwrap()),
+                    _ => format!("{}", val),
+                };
+                v.disc = Some(Disc { text, value: val });
+            }
+            prev = Some(val);
+            if rg.chance(1, 4) {
+                v.groups = vec![vec![VAttr::Disabled]];
+            }
+            e.variants.push(v);
+        }
+        use_generics(&mut e);
+        // validity: unique, in range (rustc rejects duplicates / overflow)
+        let ds = model::discs(&e);
+        let mut s = ds.clone();
+        s.sort();
+        s.dedup();
+        if s.len() != ds.len() || ds.iter().any(|d| *d < lo || *d > hi) {
+            continue;
+        }
+        // BASE must be used if declared (otherwise harmless); fine either way
+        return e;
+    }
+    // fallback: plain implicit enum
+    let mut e = EnumSpec::new("En");
+    e.derives = derives.to_vec();
+    e.repr = repr.map(|s| s.to_string());
+    e.repr_int = repr.map(|s| s.to_string());
+    for i in 0..3 {
+        e.variants.push(VariantSpec::unit(IDENTS[i]));
+    }
+    e
+}
